@@ -268,17 +268,17 @@ pub fn minimise(prop: &str, oracle: &str, case: &Case, budget: usize) -> (Case, 
                     let is_reuse = matches!(&best.ops()[i], Op::Reuse(_));
                     let mut v = Vec::new();
                     let wrap = |o: Offer| if is_reuse { Op::Reuse(o) } else { Op::Call(o) };
-                    let plain = Offer { cap: o.cap, kind: o.kind, fill: 0, phase: 0, dst_off: 0, src_off: 0, query: o.query, pipe_cut: 0, pipe_hold: 0 };
+                    let plain = Offer { cap: o.cap, kind: o.kind, fill: 0, phase: 0, dst_off: 0, src_off: 0, query: o.query, pipe_cut: 0, pipe_hold: 0, submin: o.submin };
                     if plain != *o {
                         v.push(wrap(plain.clone()));
                     }
-                    if o.cap != Offer::large().cap || o.query {
+                    if (o.cap != Offer::large().cap || o.query) && !o.submin {
                         let mut l = o.clone();
                         l.cap = Offer::large().cap;
                         l.query = false;
                         v.push(wrap(l));
                     }
-                    if o.kind != K_SLICE && o.kind != K_U16 {
+                    if o.kind != K_SLICE && o.kind != K_U16 && !o.submin {
                         let mut l = o.clone();
                         l.kind = K_SLICE;
                         v.push(wrap(l));
